@@ -151,3 +151,21 @@ Proof.
   exists fin. split; [exact C|]. split; [exact MS|]. destruct Out as [(_ & Hh & _)|(Hn & _)]; [exact Hh|unfold SBDF_OK in Hn; lia].
 Qed.
 Print Assumptions C07_source_va_read_exact.
+
+Theorem C07_source_va_skip_exact : forall v tail B, wf_va v -> byte_ok (vty v) -> Forall byte (enc_va false v ++ tail) ->
+  exists f0, forall f, (f0 <= f)%nat ->
+  exists fin, callE prog_env f prog_sbdf_va_skip [tok] (enc_va false v ++ tail) B = OReturn (VInt SBDF_OK) fin /\ inb fin = tail /\ outb fin = [].
+Proof.
+  intros v tail B W Hty Hb. destruct (va_skip_source (enc_va false v ++ tail) B Hb) as (f0 & F). exists f0. intros f Hf. specialize (F f Hf).
+  rewrite (va_skip_exact false v tail W Hty) in F. exact F.
+Qed.
+Print Assumptions C07_source_va_skip_exact.
+
+Theorem C07_source_obj_skip_arr_exact : forall o tail B, wf_obj o -> Forall byte (enc_obj_arr false o ++ tail) ->
+  exists f0, forall f, (f0 <= f)%nat ->
+  exists fin, callE prog_env f prog_sbdf_obj_skip_arr [tok; VInt (oty o)] (enc_obj_arr false o ++ tail) B = OReturn (VInt SBDF_OK) fin /\ inb fin = tail /\ outb fin = [].
+Proof.
+  intros o tail B W Hb. destruct (obj_skip_arr_source (oty o) (enc_obj_arr false o ++ tail) B Hb) as (f0 & F). exists f0. intros f Hf. specialize (F f Hf).
+  rewrite (obj_skip_arr_exact false o tail W) in F. exact F.
+Qed.
+Print Assumptions C07_source_obj_skip_arr_exact.
